@@ -523,3 +523,5 @@ mut('c08-sgd-nesterov-inplace-on-grad', ['C08'], 'SGD applies the Nesterov corre
 mut('c14-tensor-bool-value-dependent', ['C14', 'C02'], 'Tensor gains a value-dependent __bool__ while linear / conv test `if bias:`', [(T, "    def __len__(self) -> int:", "    def __bool__(self) -> bool:\n        return bool(self.data.any())\n\n    def __len__(self) -> int:")], rules=['C14.PRESENCE', 'C02.PRESENCE'])
 mut('c19-linear-bias-not-reset', ['C19'], 'Linear.reset_parameters no longer fills the bias allocated with empty()', [(LY, "        init.uniform_(self.weight, -std, std)\n        if self.bias is not None:\n            init.uniform_(self.bias, -std, std)", "        init.uniform_(self.weight, -std, std)")], rules=['C19.UNINIT'])
 mut('c19-bn-affine-reset-skipped', ['C19'], 'BatchNorm calls reset_parameters only when track_running_stats is set (gamma / beta stay uninitialised otherwise)', [(LY, "            # Initialize parameters\n            self.reset_parameters()", "            # Initialize parameters\n            if self.track_running_stats: self.reset_parameters()")], rules=['C19.UNINIT'])
+mut('c05-squeeze-all-or-nothing', ['C05'], 'squeeze with a tuple of dims squeezes only if ALL listed dims have size 1', [(K, "        axis = tuple(ax for ax in axis if a.shape[ax] == 1)", "        axis = tuple(axis) if all(a.shape[ax] == 1 for ax in axis) else ()")], rules=['C05.SQUEEZE'])
+mut('c05-twin-squeeze-loop', ['C05'], 'squeeze filters the dims with an explicit loop', [(K, "        axis = tuple(ax for ax in axis if a.shape[ax] == 1)", "        kept = []\n        for ax in axis:\n            if a.shape[ax] == 1:\n                kept.append(ax)\n        axis = tuple(kept)")], expect='silent')
